@@ -133,6 +133,28 @@ func recvName(e ast.Expr) string {
 	return "?"
 }
 
+// allFuncs lists the short names of the methods whose qualified name starts with prefix (e.g. "wsRPCClient.")
+func (p *pkgInfo) allFuncs(prefix string) []string {
+	var out []string
+	for _, f := range p.files {
+		for _, d := range f.Decls {
+			fd, ok := d.(*ast.FuncDecl)
+			if !ok || fd.Recv == nil || len(fd.Recv.List) == 0 || fd.Body == nil {
+				continue
+			}
+			t := fd.Recv.List[0].Type
+			if st, isStar := t.(*ast.StarExpr); isStar {
+				t = st.X
+			}
+			if id, isID := t.(*ast.Ident); isID && id.Name+"." == prefix {
+				out = append(out, fd.Name.Name)
+			}
+		}
+	}
+	sort.Strings(out)
+	return out
+}
+
 func (p *pkgInfo) src(n ast.Node) string {
 	if n == nil {
 		return ""
@@ -288,7 +310,7 @@ func main() {
 	if err := os.MkdirAll(outDir, 0o755); err != nil {
 		panic(err)
 	}
-	gens := []func() *leanFile{genRlp, genSecp, genTx, genEth, genAbi, genAbiEntry, genFfi, genKeystore, genFsWallet, genProxy}
+	gens := []func() *leanFile{genRlp, genSecp, genTx, genEth, genAbi, genAbiEntry, genFfi, genKeystore, genFsWallet, genProxy, genRpc}
 	for _, g := range gens {
 		l := g()
 		if err := l.write(outDir); err != nil {
